@@ -731,6 +731,9 @@ class Interp:
                 r = self.apply_closure(f, list(tup.fields), st, depth)
                 if r is not None:
                     return r
+                if isinstance(f, FnV) and self.facts.fn(f.path) is None:
+                    # a function item of another crate passed as a callable (`char::is_whitespace`): the call itself
+                    return self._dispatch(f.path, list(tup.fields), st, depth, t, body, sp, crate, frame)
         self._cur_depth = depth
         r = self.dom.call(self, name, args, st, t, frame)
         if r is not None:
